@@ -8,8 +8,12 @@ open Datacake Datacake.Keyspace Datacake.OrSwot Driver
 
 def F : Nat := 3600000
 
+/-- A node holds many keyspaces, each with its own actor (set) and its own part of the store; `cur`
+is the one the following requests address. -/
 structure State where
-  node : Node := {}
+  node : Node := {}                       -- the current keyspace
+  others : List (String × Node) := []     -- the other keyspaces of the node
+  cur : String := "ks"
 
 inductive Dir where
   | none | fail | hang | written (idxs : List Nat)
@@ -39,6 +43,13 @@ def stateStr (n : Node) : String :=
     else ",".intercalate (rows.map (fun r => s!"{r.1}:{r.2.1}:{if r.2.2 then "t" else "f"}"))
   s!"set {OrswotDom.dumpStr n.set} | store {ms}"
 
+def switchKs (st : State) (name : String) : State :=
+  if name == st.cur then st
+  else
+    let saved := (st.cur, st.node) :: st.others.filter (·.1 ≠ st.cur)
+    let nd := ((saved.find? (·.1 == name)).map (·.2)).getD {}
+    { node := nd, others := saved.filter (·.1 ≠ name), cur := name }
+
 def step (st : State) (toks : List String) : State × String :=
   let n := st.node
   let dir := parseDir toks
@@ -48,20 +59,20 @@ def step (st : State) (toks : List String) : State × String :=
     | some src, some id, some ts, some d =>
       match dir with
       | .hang =>
-        if willApply n.set id ts then ({ node := { n with store := storePut n.store (id, ts, d) } }, "hung")
+        if willApply n.set id ts then ({ st with node := { n with store := storePut n.store (id, ts, d) } }, "hung")
         else (st, "ok")
-      | .fail => let (n', o) := onSet F n src (id, ts, d) true; ({ node := n' }, showOut o false)
-      | _ => let (n', o) := onSet F n src (id, ts, d) false; ({ node := n' }, showOut o false)
+      | .fail => let (n', o) := onSet F n src (id, ts, d) true; ({ st with node := n' }, showOut o false)
+      | _ => let (n', o) := onSet F n src (id, ts, d) false; ({ st with node := n' }, showOut o false)
     | _, _, _, _ => (st, "bad-op")
   | "del" :: src :: id :: ts :: _ =>
     match src.toNat?, id.toNat?, ts.toNat? with
     | some src, some id, some ts =>
       match dir with
       | .hang =>
-        if willApply n.set id ts then ({ node := { n with store := storeTomb n.store id ts } }, "hung")
+        if willApply n.set id ts then ({ st with node := { n with store := storeTomb n.store id ts } }, "hung")
         else (st, "ok")
-      | .fail => let (n', o) := onDel F n src id ts true; ({ node := n' }, showOut o false)
-      | _ => let (n', o) := onDel F n src id ts false; ({ node := n' }, showOut o false)
+      | .fail => let (n', o) := onDel F n src id ts true; ({ st with node := n' }, showOut o false)
+      | _ => let (n', o) := onDel F n src id ts false; ({ st with node := n' }, showOut o false)
     | _, _, _ => (st, "bad-op")
   | "mset" :: src :: docs :: _ =>
     match src.toNat?, StoreDom.parseDocs docs with
@@ -69,10 +80,10 @@ def step (st : State) (toks : List String) : State × String :=
       match dir with
       | .hang =>
         let valid := docs.filter (fun d => willApply n.set d.1 d.2.1)
-        ({ node := { n with store := valid.foldl storePut n.store } }, "hung")
-      | .fail => let (n', o) := onMultiSet F n src docs (some []); ({ node := n' }, showOut o true)
-      | .written idxs => let (n', o) := onMultiSet F n src docs (some idxs); ({ node := n' }, showOut o true)
-      | .none => let (n', o) := onMultiSet F n src docs none; ({ node := n' }, showOut o true)
+        ({ st with node := { n with store := valid.foldl storePut n.store } }, "hung")
+      | .fail => let (n', o) := onMultiSet F n src docs (some []); ({ st with node := n' }, showOut o true)
+      | .written idxs => let (n', o) := onMultiSet F n src docs (some idxs); ({ st with node := n' }, showOut o true)
+      | .none => let (n', o) := onMultiSet F n src docs none; ({ st with node := n' }, showOut o true)
     | _, _ => (st, "bad-op")
   | "mdel" :: src :: docs :: _ =>
     match src.toNat?, StoreDom.parsePairs docs with
@@ -80,17 +91,17 @@ def step (st : State) (toks : List String) : State × String :=
       match dir with
       | .hang =>
         let valid := docs.filter (fun d => willApply n.set d.1 d.2)
-        ({ node := { n with store := valid.foldl (fun ks d => storeTomb ks d.1 d.2) n.store } }, "hung")
-      | .fail => let (n', o) := onMultiDel F n src docs (some []); ({ node := n' }, showOut o true)
-      | .written idxs => let (n', o) := onMultiDel F n src docs (some idxs); ({ node := n' }, showOut o true)
-      | .none => let (n', o) := onMultiDel F n src docs none; ({ node := n' }, showOut o true)
+        ({ st with node := { n with store := valid.foldl (fun ks d => storeTomb ks d.1 d.2) n.store } }, "hung")
+      | .fail => let (n', o) := onMultiDel F n src docs (some []); ({ st with node := n' }, showOut o true)
+      | .written idxs => let (n', o) := onMultiDel F n src docs (some idxs); ({ st with node := n' }, showOut o true)
+      | .none => let (n', o) := onMultiDel F n src docs none; ({ st with node := n' }, showOut o true)
     | _, _ => (st, "bad-op")
   | "purge" :: _ =>
     match dir with
     | .hang =>
       let (n', _) := onPurge n none
-      ({ node := n' }, "hung")
-    | .fail => let (n', o) := onPurge n (some []); ({ node := n' }, showOut o false)
+      ({ st with node := n' }, "hung")
+    | .fail => let (n', o) := onPurge n (some []); ({ st with node := n' }, showOut o false)
     | .written idxs =>
       -- the case file numbers the purged tombstones in ascending key order (the implementation hands them to storage
       -- in hash-map order, the harness sorts them): translate to positions of the model's `purged` list
@@ -98,8 +109,8 @@ def step (st : State) (toks : List String) : State × String :=
       let sortedKeys := StoreDom.sortNat (purged.map (·.1))
       let doneKeys := (sortedKeys.zipIdx.filter (fun p => idxs.contains p.2)).map (·.1)
       let idxs' := (purged.zipIdx.filter (fun p => doneKeys.contains p.1.1)).map (·.2)
-      let (n', o) := onPurge n (some idxs'); ({ node := n' }, showOut o false)
-    | .none => let (n', o) := onPurge n none; ({ node := n' }, showOut o false)
+      let (n', o) := onPurge n (some idxs'); ({ st with node := n' }, showOut o false)
+    | .none => let (n', o) := onPurge n none; ({ st with node := n' }, showOut o false)
   | ["state"] => (st, stateStr n)
   | ["get", id] =>
     match id.toNat? with
@@ -108,7 +119,11 @@ def step (st : State) (toks : List String) : State × String :=
         | some bytes, some (ts, _) => s!"doc {id}:{ts}:{StoreDom.showData bytes}"
         | _, _ => "none")
     | none => (st, "bad-op")
-  | ["restart"] => ({ node := { n with set := loadFromStorage F n.store } }, "ok")
+  | ["ks", name] => (switchKs st name, "ok")
+  | ["restart"] =>
+    -- `load_states_from_storage`: EVERY keyspace is rebuilt from its own part of the store
+    ({ st with node := { n with set := loadFromStorage F n.store },
+               others := st.others.map (fun p => (p.1, { p.2 with set := loadFromStorage F p.2.store })) }, "ok")
   | _ => (st, "bad-op")
 
 end Driver.ActorDom
